@@ -246,7 +246,12 @@ class BPlusTreeMap:
 
     def __len__(self) -> int:
         """Return number of key-value pairs"""
-        return self.leaves.key_count()
+        count = 0
+        node = self.leaves
+        while node is not None:
+            count += len(node.keys)
+            node = node.next
+        return count
 
     def __bool__(self) -> bool:
         """Return True if tree is not empty"""
